@@ -247,8 +247,13 @@ def setup_oracle(ctx, n, tdir, model_lines, model_expect):
     sys.argv = ["nanite-setup-profile"]
     try:
         for i in range(n):
+            # a fresh profile, or (40 %) a second / third setup run on the profile of the previous iteration
+            prev = {}
             if profile.PROFILE_PATH.exists():
-                profile.PROFILE_PATH.unlink()
+                if i == 2 or (i and i != 1 and rng.random() < 0.4):
+                    prev = json.loads(profile.PROFILE_PATH.read_text())
+                else:
+                    profile.PROFILE_PATH.unlink()
             exp = {}
             ans = []
             # preprocessing
@@ -259,7 +264,7 @@ def setup_oracle(ctx, n, tdir, model_lines, model_expect):
             else:
                 ans.append("")
             # model
-            mk = profile.DEFAULTS["model_key"]
+            mk = prev.get("model_key", profile.DEFAULTS["model_key"])
             if rng.random() < 0.5:
                 j = rng.randint(1, len(models))
                 if models[j - 1] in ("hertz_para", "hertz_cone", "hertz_pyr3s", "sneddon_spher_approx"):
@@ -281,7 +286,7 @@ def setup_oracle(ctx, n, tdir, model_lines, model_expect):
                     exp[f"fit param {p} value"] = v
                 else:
                     ans.append("")
-                    exp[f"fit param {p} value"] = md[p].value
+                    exp[f"fit param {p} value"] = prev.get(f"fit param {p} value", md[p].value)
                 r = rng.random()
                 if r < 0.15:
                     ans.append("maybe")      # invalid -> re-prompt
@@ -293,7 +298,7 @@ def setup_oracle(ctx, n, tdir, model_lines, model_expect):
                     exp[f"fit param {p} vary"] = b_
                 else:
                     ans.append("")
-                    exp[f"fit param {p} vary"] = md[p].vary
+                    exp[f"fit param {p} vary"] = prev.get(f"fit param {p} vary", md[p].vary)
             # range type
             r = rng.random()
             if r < 0.35:
@@ -306,11 +311,15 @@ def setup_oracle(ctx, n, tdir, model_lines, model_expect):
                 ans.append("")
                 rt_answer = None
             # interval
-            left = rng.choice([None, -2.0, -0.5])
-            right = rng.choice([None, 1.0, 0.25])
+            left = rng.choice([None, -2.0, -0.5, 0.0])
+            right = rng.choice([None, 1.0, 0.25, 0.0])
+            if i == 1:
+                left, right = -2.0, 1.0          # directed pair: a non-zero interval ...
+            elif i == 2:
+                left, right = 0.0, 0.0           # ... then the answer 0 on the existing profile
             ans.append("" if left is None else repr(left))
             ans.append("" if right is None else repr(right))
-            cur = list(np.array(profile.DEFAULTS["range_x"]) * 1e6)
+            cur = list(np.array(prev.get("range_x", profile.DEFAULTS["range_x"])) * 1e6)
             # weight
             w = rng.choice([None, 0.0, 2.0, 0.75])
             ans.append("" if w is None else repr(w))
@@ -344,9 +353,10 @@ def setup_oracle(ctx, n, tdir, model_lines, model_expect):
             finally:
                 builtins.input = old_input
             desc = {"answers": ans}
-            ctx.case({"setup": ans}, nontrivial="setup:" + "|".join(ans),
+            desc["existing_profile"] = prev or None
+            ctx.case({"setup": ans, "on_existing_profile": bool(prev)}, nontrivial="setup:" + "|".join(ans) + str(bool(prev)),
                      bucket=["stream=setup", f"rt={rt_answer}", f"left={left is not None}",
-                             f"right={right is not None}"])
+                             f"right={right is not None}", f"existing-profile={bool(prev)}"])
             if err is not None:
                 ctx.violation("setup-raises:" + err.split("(")[0], f"setup_profile raised {err}",
                               {"input": desc, "observed": err})
@@ -370,6 +380,10 @@ def setup_oracle(ctx, n, tdir, model_lines, model_expect):
                                   f"answer for {k} ({v!r}) is not the stored value ({got!r})",
                                   {"input": desc, "expected": repr(v), "observed": repr(got)})
             for name, a, idx in (("left", left, 0), ("right", right, 1)):
+                if a is None and abs(stored["range_x"][idx] - cur[idx] * 1e-6) > 1e-15:
+                    ctx.violation(f"setup-skipped-prompt-changed:range_x-{name}",
+                                  f"{name} interval prompt was skipped but {stored['range_x']} is stored (before: "
+                                  f"{[c * 1e-6 for c in cur]})", {"input": desc, "observed": stored["range_x"]})
                 if a is not None and abs(stored["range_x"][idx] - a * 1e-6) > 1e-15:
                     ctx.violation(f"setup-not-stored:range_x-{name}",
                                   f"{name} interval bound {a} µm was entered but {stored['range_x']} is stored",
